@@ -660,6 +660,13 @@ def run(ctx):
                        'pending/undone, 0/2 items, corrupted bytes) x chunkings; a case is distinct by (method, version, shape, '
                        'abstract response, outcome)')
     quick = ctx.tier == 'quick'
+    ctx.cov['trusted_extra'] = [
+        'harness projections clientdrv.to_val / obj_attrs / secret_val (Python attribute reads -> model values); the scripted '
+        'responder (responses written by the real encoder, requests decoded by the real server-side classes); the real '
+        'ResponseMessage decoder classifies corrupted bytes as decodable / undecodable',
+        'modelled, not verified: TLS and socket behaviour (transport = list of non-empty chunks, end of list = EOF); response '
+        'decoding (parameter `decode`; C01); ObjectFactory.convert (C05; compared through a canonical projection); request '
+        'payload codecs (hypothesis of requests_decodable_partial, discharged by the server-stack correspondence)']
     ctx.regen(only=['enums'])
     ctx.prove('props/C19.v')
     cases, meta = pie_cases(ctx, quick)
